@@ -29,7 +29,7 @@ func VerifC10Receive(order int) {
 	ctx := verif_background()
 	snd := verifNewStore("snd", 2)
 	ds := verif_datastore("rcv")
-	ks := verif_keystore()
+	ks := verifKeystore("ks")
 	rcv := verifStoreOn(ds, ks, 2)
 	g := verifGroup(snd, rcv, 3)
 	gpk, err := g.GetPubKey()
@@ -95,7 +95,7 @@ func VerifC10Receive(order int) {
 func VerifC10Send() {
 	ctx := verif_background()
 	ds := verif_datastore("snd")
-	ks := verif_keystore()
+	ks := verifKeystore("ks")
 	snd := verifStoreOn(ds, ks, 2)
 	oth := verifNewStore("oth", 2)
 	g := verifGroup(snd, oth, 3)
@@ -141,7 +141,7 @@ func VerifC10Send() {
 // are the ones that had been returned before the crash.
 func VerifC10Keys() {
 	ds := verif_datastore("s")
-	ks := verif_keystore()
+	ks := verifKeystore("ks")
 	s := verifStoreOn(ds, ks, 2)
 	g, _, err := protocoltypes.NewGroupMultiMember()
 	verif_assume(err == nil)
